@@ -689,7 +689,8 @@ class VM:
                     isinstance(constructor, JSObject)
                     and hasattr(constructor, "_call_fn")
                 )
-            ):
+                or (callable(constructor) and not isinstance(constructor, JSObject))
+            ):  # (the last: built-in functions and methods)
                 raise JSTypeError("Right-hand side of instanceof is not callable")
 
             # x instanceof boundFunction asks the target of the bound function
@@ -715,10 +716,10 @@ class VM:
                     if proto is None or proto is UNDEFINED:
                         proto = getattr(constructor, "_prototype", None)
 
-                if isinstance(constructor, JSFunction) and not isinstance(
+                if not isinstance(constructor, JSObject) and not isinstance(
                     proto, JSObject
                 ):
-                    # arrow functions, method shorthands, F.prototype = 1
+                    # arrow functions, built-in methods, F.prototype = 1
                     raise JSTypeError(
                         "Function has non-object prototype in instanceof check"
                     )
